@@ -63,6 +63,7 @@ func main() {
 		extractTxFsm(contracts, genDir)
 		extractGovPriority(contracts, genDir)
 		extractCascade(contracts, genDir)
+		extractSubmissionCascade(contracts, genDir)
 		if exe := byPath["github.com/meshplus/bitxhub/internal/executor"]; exe != nil {
 			extractContractMethods(exe, contracts, genDir)
 			extractFailedEvents(exe, genDir)
